@@ -14,6 +14,7 @@ body is looked at (`C08_size_limit_precedes_decoding`).
 Helper lemmas: Ssv/Proofs/Validation.lean, Ssv/Proofs/ValidationPanic.lean.
 -/
 import Ssv.Proofs.ValidationPanic
+import Ssv.Model.ValidationRecords
 
 namespace Ssv.Validation
 open Ssv
@@ -213,6 +214,74 @@ theorem C08_empty_committee_would_panic :
     (validate ctx0 State.empty
         { inputAt { round0Proposal with round := 1 } (1616508000 + 12 * 32000) with share := some { share4 with committee := [] } }).2
       = .panic .leaderModZero := by decide
+
+/-! ## node-record (ENR) entry decoders (network/records/entries.go; reached from every discovered peer's record)
+
+The property names "the decoders of … node records". `DomainTypeEntry.DecodeRLP` converted the decoded byte slice to a
+4-byte array without looking at its length — a Go run-time panic for fewer than four bytes (found on the pinned tree,
+repaired by aac5f5f72). -/
+
+/-- tie: in `DomainTypeEntry.DecodeRLP` the length guard (`len(buf) < len(dt)` → error) precedes the slice-to-array
+    conversion, the comparison is `<`, and neither it nor the `Get…Entry` readers / `checkPeer` call `panic` -/
+theorem C08_tie_record_entry_decoders :
+    Gen.calls_val_DomainTypeEntry_DecodeRLP = ["Decode", "len", "len", "New", "DomainTypeEntry"] ∧
+    Gen.has_val_DomainTypeEntry_DecodeRLP = [true, true] ∧
+    Gen.lits_val_DomainTypeEntry_DecodeRLP = ["u&", "!=", "<", "\"domain type entry is too short\""] ∧
+    Gen.calls_val_GetDomainTypeEntry = ["Load", "IsNotFound", "DomainType"] ∧
+    Gen.calls_val_GetSubnetsEntry = ["NewBitvector128", "Load", "WithEntry", "IsNotFound", "Len", "Len", "BitAt"] ∧
+    Gen.calls_val_checkPeer = ["GetDomainTypeEntry", "GetSubnetsEntry", "Equal", "UpdatePeerSubnets", "limitNodeFilter",
+                               "sharedSubnetsFilter"] := by decide
+
+/-- FULL: the domain-type entry decoder is total — for EVERY value (any byte string of any length, any non-string item) the
+    outcome is an error or four bytes, never a panic; short ⇒ error; ≥ 4 bytes ⇒ exactly the first four -/
+theorem C08_domain_type_entry_total (v : EnrValue) :
+    decodeDomainType v ≠ .panic ∧
+    (∀ b, v = .bytes b → b.length < 4 → decodeDomainType v = .err) ∧
+    (∀ b, v = .bytes b → 4 ≤ b.length → decodeDomainType v = .ok (b.take 4) ∧ (b.take 4).length = 4) ∧
+    (v = .notBytes → decodeDomainType v = .err) := by
+  refine ⟨?_, ?_, ?_, ?_⟩
+  · cases v with
+    | notBytes => intro h; cases h
+    | bytes b =>
+      simp only [decodeDomainType]
+      by_cases hl : b.length < domainTypeLen
+      · rw [if_pos hl]; intro h; cases h
+      · rw [if_neg hl]; intro h; cases h
+  · intro b hv hl; subst hv
+    simp [decodeDomainType, domainTypeLen, hl]
+  · intro b hv hl; subst hv
+    have : ¬ b.length < 4 := by omega
+    simp [decodeDomainType, domainTypeLen, this, List.length_take]
+    omega
+  · intro hv; subst hv; rfl
+
+/-- REGRESSION on the pre-repair decoder (no length guard): EVERY byte string shorter than four bytes — the empty string,
+    small integers, … — is a panic; from four bytes on the two decoders agree -/
+theorem C08_regression_old_domain_type_decoder_panics (b : List Nat) :
+    (b.length < 4 → decodeDomainTypeOld (.bytes b) = .panic) ∧
+    (4 ≤ b.length → decodeDomainTypeOld (.bytes b) = decodeDomainType (.bytes b)) := by
+  constructor
+  · intro h; simp [decodeDomainTypeOld, domainTypeLen, h]
+  · intro h
+    have : ¬ b.length < 4 := by omega
+    simp [decodeDomainTypeOld, decodeDomainType, domainTypeLen, this]
+
+/-- the subnets entry reader is total as well: a byte string of ANY length yields exactly 128 entries (all zero unless the
+    string is 16 bytes long), anything else an error -/
+theorem C08_subnets_entry_total (v : EnrValue) :
+    decodeSubnets v ≠ .panic ∧
+    (∀ b, v = .bytes b → ∃ l, decodeSubnets v = .ok l ∧ l.length = 128 ∧ (b.length ≠ 16 → l = List.replicate 128 0)) := by
+  constructor
+  · cases v <;> (simp only [decodeSubnets]; intro h; cases h)
+  · intro b hv; subst hv
+    refine ⟨_, rfl, by simp [subnetBits], ?_⟩
+    intro h
+    simp only [h, if_false]
+    decide
+
+example : decodeDomainType (.bytes [0, 0, 48, 18, 9, 9]) = .ok [0, 0, 48, 18] := by decide
+example : decodeDomainType (.bytes [1, 2, 3]) = .err ∧ decodeDomainTypeOld (.bytes [1, 2, 3]) = .panic := by decide
+example : decodeSubnets (.bytes (5 :: List.replicate 15 0)) = .ok ([1, 0, 1] ++ List.replicate 125 0) := by decide
 
 /-! ## size limits precede decoding -/
 
